@@ -157,6 +157,15 @@ func sameRule(a, b []string) bool {
 	return true
 }
 
+func containsRule(rs [][]string, r []string) bool {
+	for _, x := range rs {
+		if sameRule(x, r) {
+			return true
+		}
+	}
+	return false
+}
+
 type recAdapter struct {
 	Content []prule
 	Log     []string
